@@ -179,6 +179,48 @@ def run(ctx):
     except Undecidable as e:
         ctx.undecided('R18.2', fdis.qualname, 'disvg', str(e), where=where(fdis))
 
+    # ---- group addressing: a nested-name path is resolved level by level among DIRECT children (get_group and get_or_add_group agree)
+    ctx.rule('R18.5', 'Document.get_group / get_or_add_group resolve each name among the direct children of the previous group; '
+                      'a missing level is created under the group reached so far', 1)
+    fgg = mdl.func('document.Document.get_or_add_group')
+
+    def th_grp(it):
+        inner = Elem('g', {'id': 'shapes'})
+        layer = Elem('g', {'id': 'layer1'}, [inner])
+        root_e = Elem('svg', {}, [layer])
+        cache = {}
+        root = _wrap(it, root_e, cache)
+        made = []
+
+        def sub_el2(it2, a, k):
+            parent = a[0]
+            e = Elem(a[1].split('}')[-1], dict(a[2]) if len(a) > 2 else {})
+            parent.attrs['__elem__'].children.append(e)
+            w = _wrap(it2, e, cache)
+            made.append((parent, a[1], dict(a[2]) if len(a) > 2 else {}, w))
+            return w
+        it.ext_hooks['xml.etree.ElementTree.SubElement'] = sub_el2
+        doc = it.new_obj('document.Document')
+        doc.attrs['tree'] = stub('tree', getroot=lambda it2, a, k: root, iter=lambda it2, a, k: [_wrap(it2, x, cache) for x in __import__('checks.c17', fromlist=['_all'])._all(root_e)])
+        found_nested = it.call_method(doc, 'get_group', ['layer1', 'shapes'])
+        found_top = it.call_method(doc, 'get_group', ['shapes'])
+        got = it.call_method(doc, 'get_or_add_group', ['shapes'])
+        return found_nested, found_top, got, list(made), root, _wrap(it, inner, cache)
+
+    def judge_grp(v):
+        found_nested, found_top, got, made, root, inner = v
+        probs = []
+        if found_nested is not inner:
+            probs.append("get_group(['layer1','shapes']) does not find the nested group")
+        if found_top is not None:
+            probs.append("get_group(['shapes']) finds a group that is not a direct child of the root")
+        if got is inner:
+            probs.append("get_or_add_group(['shapes']) returns the group nested inside 'layer1' instead of creating one under the root")
+        elif len(made) != 1 or made[0][0] is not root or made[0][2].get('id') != 'shapes':
+            probs.append('get_or_add_group does not create the missing group under the root (%d elements created)' % len(made))
+        return not probs, '; '.join(probs)
+    ob('R18.5').run(fgg, 'nested group names are resolved among direct children', th_grp, judge_grp)
+
     # ================================================================= readers
     # ---- svg2paths
     fs2p = mdl.func('svg_to_paths.svg2paths')
